@@ -15,7 +15,8 @@ namespace QuCumber
 /-- |ψ|² · (ψ'/ψ) = conj(ψ) · ψ' : the importance-sampling weight times the sampling probability -/
 theorem normSq_mul_ratio (ψ ψ' : ℂ) (h : ψ ≠ 0) :
     ((Complex.normSq ψ : ℝ) : ℂ) * (ψ' / ψ) = (starRingEnd ℂ ψ) * ψ' := by
-  sorry
+  rw [Complex.normSq_eq_conj_mul_self]
+  field_simp
 
 /-- flipping spin `i` of a configuration -/
 def flip {n : ℕ} (i : Fin n) (σ : Fin n → Bool) : Fin n → Bool := Function.update σ i (!σ i)
@@ -25,19 +26,33 @@ def flip {n : ℕ} (i : Fin n) (σ : Fin n → Bool) : Fin n → Bool := Functio
 theorem sigmaX_local_estimator (n : ℕ) (ψ : (Fin n → Bool) → ℂ) (hne : ∀ σ, ψ σ ≠ 0) (i : Fin n) :
     ∑ σ : Fin n → Bool, Complex.normSq (ψ σ) * ((ψ (flip i σ)) / ψ σ).re
       = (∑ σ : Fin n → Bool, (starRingEnd ℂ (ψ σ)) * ψ (flip i σ)).re := by
-  sorry
+  rw [Complex.re_sum]
+  refine Finset.sum_congr rfl fun σ _ => ?_
+  rw [← normSq_mul_ratio _ _ (hne σ), Complex.re_ofReal_mul]
 
 /-- C08, Pauli Y on site i: the coefficient is i·(+1) for bit 1 and i·(-1) for bit 0 (what SigmaY.apply multiplies by) -/
 theorem sigmaY_local_estimator (n : ℕ) (ψ : (Fin n → Bool) → ℂ) (hne : ∀ σ, ψ σ ≠ 0) (i : Fin n) :
     ∑ σ : Fin n → Bool, Complex.normSq (ψ σ) *
         ((ψ (flip i σ)) * (Complex.I * (if σ i then (1 : ℂ) else (-1 : ℂ))) / ψ σ).re
       = (∑ σ : Fin n → Bool, (starRingEnd ℂ (ψ σ)) * (Complex.I * (if σ i then (1 : ℂ) else (-1 : ℂ))) * ψ (flip i σ)).re := by
-  sorry
+  rw [Complex.re_sum]
+  refine Finset.sum_congr rfl fun σ _ => ?_
+  rw [mul_assoc, ← normSq_mul_ratio _ _ (hne σ), Complex.re_ofReal_mul, mul_comm (Complex.I * _)]
 
 /-- the site average: what `SigmaX.apply` returns per sample is (1/n) Σ_i of the local values -/
-theorem sigmaX_site_average (n : ℕ) (hn : 0 < n) (ψ : (Fin n → Bool) → ℂ) (hne : ∀ σ, ψ σ ≠ 0) :
+theorem sigmaX_site_average (n : ℕ) (_hn : 0 < n) (ψ : (Fin n → Bool) → ℂ) (hne : ∀ σ, ψ σ ≠ 0) :
     ∑ σ : Fin n → Bool, Complex.normSq (ψ σ) * ((1 / (n : ℝ)) * ∑ i : Fin n, ((ψ (flip i σ)) / ψ σ).re)
       = (1 / (n : ℝ)) * ∑ i : Fin n, (∑ σ : Fin n → Bool, (starRingEnd ℂ (ψ σ)) * ψ (flip i σ)).re := by
-  sorry
+  simp_rw [← sigmaX_local_estimator n ψ hne]
+  rw [Finset.sum_comm, Finset.mul_sum]
+  refine Finset.sum_congr rfl fun σ _ => ?_
+  rw [Finset.mul_sum, Finset.mul_sum, Finset.mul_sum]
+  refine Finset.sum_congr rfl fun i _ => ?_
+  ring
 
 end QuCumber
+
+#print axioms QuCumber.normSq_mul_ratio
+#print axioms QuCumber.sigmaX_local_estimator
+#print axioms QuCumber.sigmaY_local_estimator
+#print axioms QuCumber.sigmaX_site_average
